@@ -251,6 +251,138 @@ pub fn eval_config(base: &Path, c: &Cfg, order: &[Doc]) -> (u64, Vec<(String, St
     (n, out)
 }
 
+
+// ------------------------------------------------------------------ module naming from paths
+
+/// One module file somewhere under src/ or test/ of the root package or of a registry
+/// dependency; directory and file names range over {a/x, src, test}.
+#[derive(Clone, Debug)]
+pub struct NameCfg {
+    in_dep: bool,
+    top: &'static str,
+    dirs: Vec<&'static str>,
+    stem: &'static str,
+}
+
+fn name_cfgs() -> Vec<NameCfg> {
+    let comps = ["a", "src", "test"];
+    let mut dirs: Vec<Vec<&'static str>> = vec![vec![]];
+    for a in comps {
+        dirs.push(vec![a]);
+        for b in comps {
+            dirs.push(vec![a, b]);
+        }
+    }
+    let mut out = vec![];
+    for in_dep in [false, true] {
+        for top in ["src", "test"] {
+            // test/ modules of a dependency are not part of its interface
+            if in_dep && top == "test" {
+                continue;
+            }
+            for d in &dirs {
+                for stem in ["x", "src", "test"] {
+                    out.push(NameCfg { in_dep, top, dirs: d.clone(), stem });
+                }
+            }
+        }
+    }
+    out
+}
+
+fn name_main(c: &NameCfg) -> (String, Vec<(String, bool)>) {
+    // candidate import names: every non-empty suffix of top/dirs/stem
+    let mut path: Vec<&str> = vec![c.top];
+    path.extend(c.dirs.iter().copied());
+    path.push(c.stem);
+    let full = path[1..].join("/");
+    let mut cands: Vec<(String, bool)> = vec![];
+    for i in 0..path.len() {
+        let name = path[i..].join("/");
+        let want = name == full;
+        if !cands.iter().any(|(n, _)| *n == name) {
+            cands.push((name, want));
+        }
+    }
+    let mut text = String::new();
+    for (k, (name, _)) in cands.iter().enumerate() {
+        text += &format!("import {name} as m{k}\n");
+    }
+    text += "\npub fn main() {\n";
+    for k in 0..cands.len() {
+        text += &format!("  m{k}.f()\n");
+    }
+    text += "}\n";
+    (text, cands)
+}
+
+pub fn eval_name_cfg(base: &Path, c: &NameCfg) -> (u64, Vec<(String, String, String)>) {
+    let app = base.join("app");
+    let _ = std::fs::remove_dir_all(base);
+    write(&app.join("gleam.toml"), &format!("name = \"app\"\nversion = \"1.0.0\"\n\n[dependencies]\n{}", if c.in_dep { "dep1 = \"~> 1.0\"\n" } else { "" }));
+    let (main, cands) = name_main(c);
+    write(&app.join("src/main.gleam"), &main);
+    let pkg = if c.in_dep { app.join("build/packages/dep1") } else { app.clone() };
+    if c.in_dep {
+        write(&pkg.join("gleam.toml"), "name = \"dep1\"\nversion = \"1.0.0\"\n");
+    }
+    let mut rel = PathBuf::from(c.top);
+    for d in &c.dirs {
+        rel.push(d);
+    }
+    rel.push(format!("{}.gleam", c.stem));
+    let file = pkg.join(&rel);
+    write(&file, "pub fn f() {\n  1\n}\n");
+    let mut out = vec![];
+    let mut n = 0;
+    let mut srv = InProc::new();
+    let uri = uri_of(&app.join("src/main.gleam"));
+    if let Err(m) = srv.open(&uri, &main) {
+        out.push(("loader-panic".into(), "naming|open".into(), format!("didOpen panicked: {}", crate::core::panic_class(&m))));
+        return (n, out);
+    }
+    let shape = format!("{}{}/{}{}", if c.in_dep { "dep:" } else { "" }, c.top, c.dirs.iter().map(|d| format!("{d}/")).collect::<String>(), c.stem);
+    for (k, (name, want)) in cands.iter().enumerate() {
+        n += 1;
+        let pos = pos_of(&main, &format!("m{k}.f("), 3 + k.to_string().len() - 1);
+        match definition(&mut srv, &uri, pos) {
+            Err(e) => out.push(("query-panic".into(), format!("naming|{shape}"), format!("definition panicked: {e}"))),
+            Ok(got) => {
+                let hit = got.len() == 1 && got[0] == uri_of(&file);
+                if *want && !hit {
+                    out.push(("visible-but-unresolved".into(), format!("naming|{shape}|import {name}"), format!("module file {} must be importable as `{name}`: go-to-definition through `import {name}` gives {got:?}", rel.display())));
+                }
+                if !*want && !got.is_empty() {
+                    out.push(("resolves-but-not-visible".into(), format!("naming|{shape}|import {name}"), format!("module file {} is not called `{name}`, but `import {name}` resolves to {got:?}", rel.display())));
+                }
+            }
+        }
+    }
+    (n, out)
+}
+
+fn naming_layer(rep: &mut Report, root: &Path) {
+    let cfgs = name_cfgs();
+    let res: Vec<(u64, Vec<Violation>)> = cfgs
+        .par_iter()
+        .enumerate()
+        .map(|(i, c)| {
+            let (n, fails) = eval_name_cfg(&root.join(format!("n{i}")), c);
+            (n, fails.into_iter().map(|(class, key, detail)| Violation { class, key, witness: json!({"naming_index": i, "cfg": format!("{c:?}")}), detail: format!("[{c:?}] {detail}") }).collect())
+        })
+        .collect();
+    let mut l = Layer { name: "module-naming".into(), states: cfgs.len() as u64, exhaustive: true, ..Default::default() };
+    for (n, v) in res {
+        l.executions += 1;
+        l.transitions += n;
+        for x in v {
+            rep.violation(x);
+        }
+    }
+    l.bound = format!("{} trees: one module file at <pkg>/<src|test>/<0-2 directories>/<stem>.gleam with directory names and stems from {{a, x, src, test}} (root package: src and test; registry dependency: src), imported from the root package under EVERY suffix of its path; exactly the name below src/ or test/ must resolve", cfgs.len());
+    rep.layer(l);
+}
+
 fn orders(c: &Cfg, tier: Tier) -> Vec<Vec<Doc>> {
     let mut docs = vec![Doc::Main, Doc::Dep1Mod, Doc::Loose, Doc::LibMod];
     if c.nested {
@@ -312,7 +444,8 @@ pub fn run(tier: Tier) -> i32 {
     }
     l.bound = format!("64 project trees (registry dep, path dep, transitive dep, direct dep on the transitive one, nested package root, module in src/ vs test/; plus nested module directories, equal module names in package and dependency, a free-standing file) x all open orders of <= {} distinct documents out of 5; real directories, real loader via didOpen on the real router", tier.pick(2, 3));
     rep.layer(l);
-    rep.distinct_nontrivial = jobs.len() as u64;
+    naming_layer(&mut rep, &root);
+    rep.distinct_nontrivial = jobs.len() as u64 + name_cfgs().len() as u64;
     rep.distinct_outcomes = classes.len() as u64 + 1;
     rep.rule = "a configuration = (project tree, sequence of opened documents); all are distinct; expected targets from the layout model".into();
     rep.sample(json!({"cfg": "dep1+lib, util in test/", "order": ["Dep1Mod", "Main"]}));
@@ -322,6 +455,12 @@ pub fn run(tier: Tier) -> i32 {
 }
 
 pub fn replay(w: &Value) -> Vec<String> {
+    if let Some(i) = w["naming_index"].as_u64() {
+        let cfgs = name_cfgs();
+        let Some(c) = cfgs.get(i as usize) else { return vec!["bad index".into()] };
+        let base = crate::core::verif_root().join(".scratch/c17-replay");
+        return eval_name_cfg(&base, c).1.into_iter().map(|(c, _, d)| format!("{c}: {d}")).collect();
+    }
     let cfgs = all_cfgs();
     let i = w["cfg_index"].as_u64().unwrap_or(0) as usize;
     let Some(c) = cfgs.get(i) else { return vec!["bad index".into()] };
